@@ -4,6 +4,7 @@ import (
 	"encoding/json"
 	"fmt"
 	"math/rand"
+	"os"
 	"sort"
 	"strings"
 
@@ -215,6 +216,9 @@ func (d *drv) deliver(blk *types.Block, s core.Step, pid string) error {
 	switch d.via {
 	case "process":
 		d.last = d.n.Deliver(blk, bcast, rpid)
+		if os.Getenv("VERIF_CHAIN_DEBUG") != "" {
+			fmt.Fprintf(os.Stderr, "DELIVER %v pid=%s bcast=%v -> main=%v orphan=%v err=%v\n", s, rpid, bcast, d.last.Main, d.last.Orphan, d.last.Err)
+		}
 	case "msg":
 		d.last = rig.Result{Err: d.n.DeliverMsg(blk, bcast, rpid)}
 	case "bus":
@@ -512,7 +516,7 @@ func (d *drv) final(tipHash []byte) string {
 	if hv > 0 && string(tipHash) != string(ct.hash[hv]) || hv <= 0 && string(tipHash) != string(w.trunk[trunkH].Hash(w.f.N.Cfg)) {
 		return fmt.Sprintf("tip is block %d, heaviest is %d", w.id(ct, tipHash), hv)
 	}
-	addrs := append([]string{w.f.GenesisAddr()}, w.f.Addrs...)
+	addrs := append([]string{w.f.GenesisAddr(), w.f.SenderAddr()}, w.f.Addrs...)
 	key := fmt.Sprintf("%s|%d|%v", ct.key, hv, d.seq)
 	w.mu.Lock()
 	re, ok := w.refs[key]
@@ -610,6 +614,9 @@ func (d *drv) Signature(b *core.Behaviour, idx int, field string, expected, obse
 			op, v, pid = "Deliver", b.Steps[i].Str("v"), b.Steps[i].Str("pid")
 			break
 		}
+	}
+	if field == "panic" {
+		return fmt.Sprintf("C27|node-panic|%s|v=%s|pid=%s|%s", op, v, pid, clip(fmt.Sprint(observed), 70))
 	}
 	if field == "ret" {
 		e, o := asMap(expected), asMap(observed)
